@@ -30,11 +30,15 @@ func c18Files(tail int) []Case {
 		{"png ICC then 100 KiB of text", []gen.PNGChunk{iccp, bigText(34000), bigText(34000), bigText(34000)}, 0},
 		{"png 100 KiB of text then ICC", []gen.PNGChunk{bigText(34000), bigText(34000), bigText(34000), iccp}, 3},
 		{"png ICC between ancillary", []gen.PNGChunk{pngAncillary("sRGB"), iccp, pngAncillary("tIME"), bigText(70000)}, 1},
+		{"png large ICC", []gen.PNGChunk{{Type: "iCCP", Data: gen.ICCPChunk("big", testProfile(70000, "lcg"), 6)}}, 100},
 	} {
 		spec := gen.PNGSpec{W: 4000, H: 3000, BitDepth: 8, ColorType: 6, Pre: v.pre, IDATDeclared: maxInt(tail, 1)}
 		var p []byte
 		if v.at >= 0 {
 			p = prof
+		}
+		if v.at == 100 {
+			v.at, p = 0, testProfile(70000, "lcg")
 		}
 		d, i := spec.Build(p, v.at)
 		out = append(out, Case{v.name, d, i})
@@ -107,7 +111,7 @@ func C18(tier string) {
 	if tier == "thorough" {
 		tails = append(tails, 2, 3, 8191, 8192, 8193, 65535, 65537, 1<<30)
 	}
-	r.Rule(fmt.Sprintf("well-formed PNG/JPEG/WebP files built from descriptions (no ICC; ICC before / after / between >64 KiB of other ancillary data; JPEG chunks in every order and split around SOF; iCCP name with a Latin-1 byte) whose pixel payload is a virtual zero tail of %v bytes produced by the counting source; each through the specific loader and autometa under: all at once, uniform 1/7/4096-byte delivery with and without EOF piggy-backed, and every reader-answer sequence with <= 2 deviations (thorough <= 3); the repository images likewise (need = what a loader given only that prefix still reports identically, found by bisection); states = choice points, transitions = answers taken", tails))
+	r.Rule(fmt.Sprintf("well-formed PNG/JPEG/WebP files built from descriptions (no ICC; ICC before / after / between >64 KiB of other ancillary data; JPEG chunks in every order and split around SOF; iCCP name with a Latin-1 byte) whose pixel payload is a virtual zero tail of %v bytes produced by the counting source; each through the specific loader and autometa under: all at once, uniform 1/7/4096-byte delivery with and without EOF piggy-backed, and every reader-answer sequence with <= 2 deviations (thorough <= 3); every ordered pair of those files loaded one after the other in one process; the repository images likewise (need = what a loader given only that prefix still reports identically, found by bisection); states = choice points, transitions = answers taken", tails))
 	r.Assume("need(file) comes from the generator: end of the iCCP chunk or of the IDAT chunk header (PNG); end of the later of SOF / last ICC chunk, else of the SOS header (JPEG); byte 30 / 25 / end of ICCP data (WebP)")
 	bound := 2
 	if tier == "thorough" {
@@ -193,6 +197,39 @@ func C18(tier string) {
 		}
 		mu.Unlock()
 	})
+
+	// sequences: every ordered pair of files loaded one after the other in this
+	// process (state left by the first load must not make the second read more)
+	{
+		files := c18Files(1 << 20)
+		r.Par(ev.Workers(), func(shard, n int) {
+			var execs int64
+			for i := shard; i < len(files); i += n {
+				for j := range files {
+					for _, auto := range []bool{false, true} {
+						la, lb := loaderFor(files[i].Info.Format), loaderFor(files[j].Info.Format)
+						if auto {
+							la, lb = &loaders[3], &loaders[3]
+						}
+						_, _ = load(la, &envx.Src{Data: files[i].Data, Tail: 1 << 20, Uniform: 1 << 30})
+						src := &envx.Src{Data: files[j].Data, Tail: 1 << 20, Uniform: 1 << 30}
+						o, _ := load(lb, src)
+						execs += 2
+						need := int64(files[j].Info.Need)
+						if src.Delivered > need+65536 {
+							r.Violate("over-read-after/"+lb.Name, fmt.Sprintf("%s.Load of %s right after loading %s: pulled %d bytes; the last needed structure ends at %d", lb.Name, files[j].Name, files[i].Name, src.Delivered, need),
+								map[string]interface{}{"first": files[i].Name, "second": files[j].Name, "delivered": src.Delivered, "need": need}, nil)
+						}
+						cc := files[j]
+						checkICCOutcome(r, &cc, lb, o, "expected-after/"+lb.Name)
+					}
+				}
+			}
+			mu.Lock()
+			total.Executions += execs
+			mu.Unlock()
+		})
+	}
 
 	// repository images: need found by bisection on the prefix length
 	for _, c := range repoImages() {
